@@ -38,9 +38,16 @@ type Resp struct {
 	C1    int64 // conc block members
 	C2    int64
 	Seen  int64 // must stay 0: rule ql reads a local it never assigned
+	Tw    int64 // Req.Twice(): a method of the request's own object
 }
 
 type Key struct{ Id int64 }
+
+// GetId is called by the probe rules p2 / p4 (a method of a request-scoped object).
+func (k *Key) GetId() int64 { return k.Id }
+
+// Twice is a method of the request object itself.
+func (r *Req) Twice() int64 { return 2 * r.Id }
 
 // The storm rules exercise every statement kind on request data, because all pool instances
 // (and all concurrent requests) execute the SAME syntax tree: per-execution state kept in a
@@ -84,6 +91,7 @@ begin
   } else {
     Resp.Grade = 3
   }
+  Resp.Tw = Req.Twice()
   Resp.Out3 = Req.Id
   return Req.Id
 end
@@ -98,9 +106,9 @@ begin
   return Req.Id
 end
 rule "p1" salience 5 begin return k1.Id end
-rule "p2" salience 4 begin return k2.Id end
+rule "p2" salience 4 begin return k2.GetId() end
 rule "p3" salience 3 begin return k3.Id end
-rule "p4" salience 2 begin return k4.Id end
+rule "p4" salience 2 begin return k4.GetId() end
 rule "qd" salience 1
 begin
   if Req.Dirty {
@@ -351,6 +359,10 @@ func (s *Storm) genCall(r *rand.Rand, gateOnly bool) trace.Call {
 		c.Names = names[:tot]
 	case trace.MDAG:
 		nl := 1 + r.Intn(3)
+		if r.Intn(8) == 0 {
+			nl = 0 // an empty DAG: runs nothing, must still hand the instance back exactly once
+			c.DAG = [][]string{}
+		}
 		at := 0
 		for i := 0; i < nl && at < len(names); i++ {
 			w := 1 + r.Intn(3)
@@ -455,6 +467,9 @@ func (s *Storm) checkIdentity(d *done, when string) {
 		id := d.id
 		if _, ran := d.res["q2"]; ran && d.resp.Mix != id+3*(id+1)+5*(2*id) {
 			s.find("iso", m+"/foreign-arguments", fmt.Sprintf("%s: request %d: mix(Req.Id, pause(Req.Id), Req.Id*2) produced %d, its own arguments give %d", m, id, d.resp.Mix, id+3*(id+1)+5*(2*id)), map[string]interface{}{"call": d.call})
+		}
+		if _, ran := d.res["q3"]; ran && d.resp.Tw != 2*id {
+			s.find("iso", m+"/foreign-method-receiver", fmt.Sprintf("%s: request %d: Req.Twice() returned %d, on its own object it is %d", m, id, d.resp.Tw, 2*id), map[string]interface{}{"call": d.call})
 		}
 		if _, ran := d.res["q3"]; ran && (d.resp.Sum3 != 3*id+6 || d.resp.Grade != 2) {
 			s.find("iso", m+"/loop-or-branch-disturbed", fmt.Sprintf("%s: request %d: forRange+for over its own list gave %d (expected %d), else-if chain gave grade %d (expected 2)", m, id, d.resp.Sum3, 3*id+6, d.resp.Grade), map[string]interface{}{"call": d.call})
